@@ -1503,3 +1503,23 @@ package process
 //@   callsite[C04] C04.fwdPassivePositive (*process.Process).transitionLoop#1: polarity == types.POSITIVE
 //@   callsite[C04] C04.fwdDropNegative (*process.Process).terminateForward#2: polarity == types.NEGATIVE
 //@   callsite[C04] C04.fwdDropPositive (*process.Process).terminate#1: polarity == types.POSITIVE
+
+// C13: the monitor runs on a goroutine of its own. What a process hands to it is a snapshot: the term in the update is a
+// copy made by this call (or no term at all), never the term the process goes on rewriting.
+//@ ghost lastSentMon Arr[Ref]MonitorUpdate
+//@ macro snapshotSent(m *Monitor, a int) bool = lastSentMon[m.monitorChan].process.Body == nil || copiedHere(lastSentMon[m.monitorChan].process.Body, a)
+//@ contract CopyForm
+//@   ensures[C13] C13.copyFresh: result != nil && copiedHere(result, old(allocCounter()))
+//@   loop[C13] 1 invariant 0 <= i && i <= len(p.branches) && len(branches) == len(p.branches) && born(backing(branches)) >= old(allocCounter()) && (forall j int :: 0 <= j && j < i ==> branches[j] != nil && born(branches[j]) >= old(allocCounter()))
+//@ contract (*Monitor).MonitorRuleFinished
+//@   ensures[C13] C13.snapshotRule: snapshotSent(m, old(allocCounter())) && sent[m.monitorChan] == old(sent[m.monitorChan]) + 1
+//@ contract (*Monitor).MonitorRuleFinishedBeforeRenamed
+//@   ensures[C13] C13.snapshotRuleRenamed: snapshotSent(m, old(allocCounter())) && sent[m.monitorChan] == old(sent[m.monitorChan]) + 1
+//@ contract (*Monitor).MonitorNewProcess
+//@   ensures[C13] C13.snapshotNew: snapshotSent(m, old(allocCounter())) && sent[m.monitorChan] == old(sent[m.monitorChan]) + 1
+//@ contract (*Monitor).MonitorProcessRenamed
+//@   ensures[C13] C13.snapshotRenamed: snapshotSent(m, old(allocCounter())) && sent[m.monitorChan] == old(sent[m.monitorChan]) + 1
+//@ contract (*Monitor).MonitorProcessTerminated
+//@   ensures[C13] C13.snapshotDead: snapshotSent(m, old(allocCounter())) && sent[m.monitorChan] == old(sent[m.monitorChan]) + 1
+//@ contract (*Monitor).MonitorProcessForwarded
+//@   ensures[C13] C13.snapshotForwarded: snapshotSent(m, old(allocCounter())) && sent[m.monitorChan] == old(sent[m.monitorChan]) + 1
